@@ -3,7 +3,7 @@ from checks import relational
 
 TECHNIQUE = "two symbolic executions of the real Model.build/process (and of set_initialization / ParameterScenario.get_parset / deepcopy / pickle) on z3-real proxies compared output by output: z3 term identity where both runs build the same term, SMT otherwise; counterexamples replayed on the unpatched code"
 EXPLANATION = "Original vs deep copy / pickle round trip / independent rebuild of the same inputs (M12 with programs, M7 timed, M10 functions, M1 with a partial hand-written initialization), the copy run *before* the original; and two projects whose frameworks share parameter names with different functions built, copied and run interleaved, each compared with a model built afresh afterwards. Obligations: every stock (rows of timed compartments), flow, parameter and sum-characteristic of the two runs is equal at every index (step-wise lockstep: after each Model.update_comps the second run's new stocks are proved equal to the first run's one-step terms and both continue from the same fresh variables), and the numeric content of the ParameterSet, ProgramSet, ProgramInstructions, framework tables and settings passed in is term-for-term unchanged afterwards. Not decided by this technique (no solver variable to vary): repeatability across processes, Result save/load files, OS-level state. Bounds: T <= 7 time points, dt = 0.25, one population (two with a transfer in thorough), values in unit ranges; floats as reals."
-GROUP_TIMEOUT = {"quick": 900, "thorough": 3000}
+GROUP_TIMEOUT = {"quick": 1800, "thorough": 3600}
 
 
 def groups(tier):
